@@ -281,6 +281,10 @@ func domSentinelHelpers(r *engine.Run, rule string, fns []*ssa.Function) int {
 				return
 			}
 			seen[v] = true
+			if l, ok := idxLen[v]; ok { // a value that indexes the slot array (the loop counter, itself a phi in an index loop)
+				N = l
+				return
+			}
 			if ph, ok := v.(*ssa.Phi); ok {
 				for _, e := range ph.Edges {
 					walk(e)
@@ -290,10 +294,6 @@ func domSentinelHelpers(r *engine.Run, rule string, fns []*ssa.Function) int {
 			if c, ok := v.(*ssa.Const); ok && c.Value != nil && c.Value.Kind() == constant.Int {
 				k, _ := constant.Int64Val(c.Value)
 				consts = append(consts, k)
-				return
-			}
-			if l, ok := idxLen[v]; ok {
-				N = l
 				return
 			}
 			other = true
